@@ -255,13 +255,20 @@ def discharge_error_type(site):
             if st["k"] == "assign" and st["rv"]["k"] == "binop" and st["rv"]["op"] in ("AddWithOverflow", "Add"):
                 a = v.origin(st["rv"]["a"])
                 b2 = canon(v, v.origin(st["rv"]["b"]))
-                if b2 == ("const", "int", 1) and a[0] == "deref" and a[1][0] == "param" and selfrec and has_slice:
+                walks = selfrec or bool(v.loops())
+                is_counter = (a[0] == "deref" and a[1][0] == "param") or a[0] == "param" or \
+                    (a[0] == "multi" and site.b.ltys(a[1]) == "usize")
+                if b2 == ("const", "int", 1) and is_counter and walks and has_slice:
                     return "C12.COUNTER", "one increment per element of an in-memory slice (bounded by isize::MAX)"
     c = v.callee(site.bb) if t["k"] == "call" else None
     if c is not None and callee_name(c) == "std::result::Result::unwrap":
         arg = canon(v, v.origin(t["args"][0]))
         if arg[0] == "call" and call_name(v, arg) == "serde_json::to_string":
             return "C12.SERIALIZE", "serialising a serde_json::Value (string keys) cannot fail (trusted)"
+        if arg[0] == "call" and call_name(v, arg) in ("std::fmt::Write::write_fmt", "std::fmt::Write::write_str", "std::fmt::Write::write_char"):
+            cw = v.callee(arg[1])
+            if cw.self_ty is not None and site.b.crate.tys(cw.self_ty) == "std::string::String":
+                return "C12.FMTSTRING", "writing into a String cannot fail (its fmt::Write impl always returns Ok; the formatted values are integers / strings)"
     return None
 
 
